@@ -42,7 +42,7 @@ def gen_residue(rng, resid, force=None):
     names, bonds = BLOCKS[resname]
     atoms = [{'name': n, 'el': element_of(n), 'ref': n} for n in names]
     bonds = [list(b) for b in bonds]
-    pres = rng.choice(['asis', 'scramble', 'permute_names', 'missing', 'missing', 'extra', 'extra', 'noH', 'mutation', 'modification',
+    pres = rng.choice(['asis', 'scramble', 'permute_names', 'missing', 'missing', 'extra', 'extra', 'noH', 'mutation', 'modification', 'modification', 'modification',
                        'scramble+missing', 'scramble+extra', 'missing+extra', 'noH+scramble']) if force is None else force[1]
     req = {}
     if 'missing' in pres:
@@ -101,7 +101,18 @@ def gen_residue(rng, resid, force=None):
     return {'resname': resname, 'resid': resid, 'atoms': atoms, 'bonds': bonds, 'req': req, 'presentation': pres}
 
 
+def _mark_via_annotate(rng, case):
+    reqs = [a['req'] for a in case['atoms'] if a['req']]
+    if reqs and not any('none' in r.get('modification', []) for r in reqs) and not case.get('ff') and rng.random() < 0.5:
+        case['via_annotate'] = True
+    return case
+
+
 def gen_case(rng, force=None):
+    return _mark_via_annotate(rng, _gen_case(rng, force))
+
+
+def _gen_case(rng, force=None):
     if force is None and rng.random() < 0.3:
         # the same residue type several times in one molecule, first as it is in the force field, then with its names
         # permuted / scrambled: the matcher keeps what it learnt about the symmetry of the first for the later ones
@@ -254,9 +265,23 @@ def run_impl(inp):
     ff = real_ff() if inp.get('ff') else _ff()
     mol = vm.Molecule(force_field=ff)
     for a in inp['atoms']:
-        mol.add_node(a['key'], atomname=a['name'], element=a['el'], resname=a['resname'], resid=a['resid'], chain='A', **a['req'])
+        req = {} if inp.get('via_annotate') else a['req']
+        mol.add_node(a['key'], atomname=a['name'], element=a['el'], resname=a['resname'], resid=a['resid'], chain='A', **req)
     for u, v in inp['bonds']:
         mol.add_edge(u, v)
+    if inp.get('via_annotate'):
+        # the requests reach the residues the way they do in martinize2: through the real AnnotateMutMod
+        import vermouth.system
+        from vermouth.processors.annotate_mut_mod import AnnotateMutMod
+        wanted = {}
+        for a in inp['atoms']:
+            if a['req']:
+                wanted[(a['resname'], a['resid'])] = a['req']
+        mods = [('A-%s%d' % key, m) for key, r in wanted.items() for m in r.get('modification', [])]
+        muts = [('A-%s%d' % key, m) for key, r in wanted.items() for m in r.get('mutation', [])]
+        system = vermouth.system.System(force_field=ff)
+        system.add_molecule(mol)
+        AnnotateMutMod(modifications=mods, mutations=muts).run_system(system)
     names = {}
 
     def code(n):
@@ -286,11 +311,13 @@ def run_impl(inp):
     for j in jobs:
         nd = reference_graph.nodes[j['_residx']]
         ref = nd['reference']
-        name = nd['mutation'][0] if nd.get('mutation') else nd['resname']
+        # what was asked for this residue, from the input (not from what the annotation stage left on the atoms)
+        asked = next((a['req'] for a in inp['atoms'] if a['resid'] == nd['resid'] and a['req']), {})
+        name = asked['mutation'][0] if asked.get('mutation') else next(a['resname'] for a in inp['atoms'] if a['resid'] == nd['resid'])
         blk = ff.blocks[name]
         want_nodes = {blk.nodes[k]['atomname']: False for k in blk.nodes}
         want_edges = {frozenset((blk.nodes[u]['atomname'], blk.nodes[v]['atomname'])) for u, v in blk.edges}
-        for modname in nd.get('modification', []) or []:
+        for modname in asked.get('modification', []) or []:
             if modname == 'none':
                 continue
             mod = ff.modifications[modname]
